@@ -38,6 +38,46 @@ theorem C05_memo_converse {I K V : Type} [DecidableEq K] (m : Memo I K V) (i j :
   injection h3 with h4
   exact hne h4
 
+/-! ### the stored value must not be mutated after the store (aliasing) -/
+
+/-- an obligation of the memo protocol that the key cannot discharge: a hit hands out the stored OBJECT.  For histories without
+    in-place mutation of a stored value the history theorem holds as before … -/
+theorem C05_memo_alias_free {I K V : Type} [DecidableEq K] (m : Memo I K V) (ht : Transparent m) (hist : List (AOp I K V))
+    (hno : ∀ a ∈ hist, a.isMutate = false) : arun m [] hist = hist.map (AOp.cold m) := by
+  suffices h : ∀ t, InvOn (fun _ => True) m t → arun m t hist = hist.map (AOp.cold m) from h [] (inv_nil _ m)
+  induction hist with
+  | nil => intro t _; rfl
+  | cons a rest ih =>
+    intro t hi
+    have hrest : ∀ x ∈ rest, x.isMutate = false := fun x hx => hno x (List.mem_cons_of_mem _ hx)
+    cases a with
+    | mutate k v =>
+      have := hno _ List.mem_cons_self
+      simp [AOp.isMutate] at this
+    | op o =>
+      cases o with
+      | call i =>
+        obtain ⟨h1, h2⟩ := call_correct (fun _ => True) m ht t hi i trivial
+        simp only [arun, step, List.map_cons, AOp.cold, cold, h1]
+        rw [ih hrest _ h2]
+      | clear =>
+        simp only [arun, step, List.map_cons, AOp.cold, cold]
+        rw [ih hrest _ (inv_nil _ m)]
+      | pop k =>
+        simp only [arun, step, List.map_cons, AOp.cold, cold]
+        rw [ih hrest _ (inv_tdel _ m k t hi)]
+
+/-- … and ONE mutation of a stored value is enough to break it, whatever the key: the consumer of a hit that changes the object
+    in place (a query derived from a cached translator without `deepcopy()`) changes what every later hit returns -/
+theorem C05_memo_aliasing_breaks :
+    ∃ hist : List (AOp Nat Nat Nat), arun (plain id id) [] hist ≠ hist.map (AOp.cold (plain id id)) :=
+  ⟨[.op (.call 1), .mutate 1 99, .op (.call 1)], by decide⟩
+
+/-- the code as it is: every consumer of a cached translator — `for x in <query>` (first generator and nested), query-typed external
+    values, `order_by` / `filter` / `where` / keyword-filter derivations — works on `translator.deepcopy()` (regenerated from
+    sqltranslation.py) -/
+theorem C05_cached_translators_copied : CacheKeys.cachedTranslatorsCopiedBeforeMutation = true := by decide
+
 /-! ### keys that are tuples of input fields -/
 
 /-- a key that contains every field the miss branch reads is transparent, whatever the miss branch computes from them -/
